@@ -33,6 +33,7 @@ pub fn by_id(id: &str) -> Option<&'static dyn Property> {
 /// classifier signatures the harness defines per property (see DESIGN.md appendix C)
 pub fn signatures(id: &str) -> Vec<&'static str> {
     match id {
+        "C02" => vec!["xmlDeclLineBreakAfterXmlKeyword"],
         "C09" => vec!["noNsElementNameUnderDefaultNs"],
         "C19" => vec!["xhtmlHttpsLookalikeTreatedAsXhtml"],
         _ => vec![],
